@@ -27,3 +27,9 @@ def python_evaluate(s: str) -> int:
         raise NotAnIntegerException(s, str(ex))
     except NameError as ex:
         raise NotAnIntegerException(s, str(ex))
+    except NotAnIntegerException:
+        raise
+    except Exception as ex:
+        # E.g. ZeroDivisionError (1//0), OverflowError, IndexError:
+        # the expression comes from the test case, so this is not an implementation error
+        raise NotAnIntegerException(s, str(ex))
